@@ -88,6 +88,7 @@ def P : Params :=
     maxMatches := 1000
     cands := fun _ => []
     ep := fun _ _ => none
+    scanErr := fun _ => none
     cond := fun _ _ => .walk (fun b => decide (b.base ≤ 5 ∧ 5 < b.base + b.size))
                         (fun seen => .ret (seen.any fun b => decide (b.base ≤ 5 ∧ 5 < b.base + b.size)))
     modParse := fun _ => none }
